@@ -22,7 +22,7 @@ ASSUMPTIONS = [
     "observation is 'transmitted' (all ciphertext handed to the TCP transport is decrypted by the harness peer), not merely 'read'",
 ]
 
-STATES = ["unpinned", "pinned-same", "pinned-different", "unparsable", "unparsable-pinned"]
+STATES = ["unpinned", "pinned-same", "pinned-different", "unparsable", "unparsable-pinned", "changed-after-success"]
 OPS = ["get", "get-query", "upload", "delete"]
 
 
@@ -34,6 +34,7 @@ def case_st():
         "peer": st.sampled_from(["eager", "delayed", "never"]),
         "redirect": st.booleans(),
         "tls": st.sampled_from(["1.3", "1.2"]),
+        "dbfault": st.sampled_from([None, None, None, 1, 2, 3, 4, 5, 6]),
     })
 
 
@@ -46,7 +47,12 @@ def enum_all(tier):
                         continue
                     for tls in ("1.3", "1.2"):
                         for size in ([100] if op != "upload" else [1, 100, 65536]):
-                            yield {"state": s, "op": op, "size": size, "peer": peer, "redirect": redirect, "tls": tls}
+                            yield {"state": s, "op": op, "size": size, "peer": peer, "redirect": redirect, "tls": tls, "dbfault": None}
+    # trust-store lookups failing (sqlite OperationalError at the n-th statement) while the certificate does not match
+    for s in ("pinned-different", "changed-after-success", "unparsable-pinned", "pinned-same"):
+        for op in OPS:
+            for n in range(1, 8):
+                yield {"state": s, "op": op, "size": 100, "peer": "eager", "redirect": False, "tls": "1.3", "dbfault": n}
 
 
 def run_case(case: dict):
@@ -65,7 +71,7 @@ def run_case(case: dict):
         case["redirect"] = False  # only plain fetches follow redirects
     state = case["state"]
     presented = {"unpinned": "ec-a", "pinned-same": "ec-a", "pinned-different": "ec-b",
-                 "unparsable": "hostile-bool", "unparsable-pinned": "hostile-v4"}[state]
+                 "unparsable": "hostile-bool", "unparsable-pinned": "hostile-v4", "changed-after-success": "ec-b"}[state]
     v = ssl.TLSVersion.TLSv1_2 if case["tls"] == "1.2" else ssl.TLSVersion.TLSv1_3
 
     async def scenario(loop):
@@ -85,6 +91,15 @@ def run_case(case: dict):
         if state in ("pinned-same", "pinned-different", "unparsable-pinned"):
             db.trust("target", 1965, x509.load_der_x509_certificate(certs.get("ec-a").der))
         client = GeminiClient(timeout=20, tofu_db_path=dbpath)
+        if state == "changed-after-success":
+            # the same long-lived client first completes a verified fetch; then the peer starts presenting another certificate
+            target.cert_sequence = [certs.get("ec-a"), certs.get("ec-b")]
+            target.script = [("wait_request", 1.0), ("send", b"20 text/gemini\r\nOK"), ("close",)]
+            r0 = await client.get("gemini://target/first")
+            assert r0.status == 20
+            target.script = script
+            target.conns.clear()
+            target.cert_sequence = [certs.get("ec-b")]
         snaps = []
         orig_verify = TOFUDatabase.verify
 
@@ -96,6 +111,11 @@ def run_case(case: dict):
             return orig_verify(self, hostname, port, cert)
 
         TOFUDatabase.verify = wrapped
+        from props import c12
+
+        c12._patch()
+        if case.get("dbfault"):
+            c12._State.n, c12._State.kind, c12._State.count, c12._State.active = case["dbfault"], "error", 0, True
         try:
             content = bytes(i & 0xFF for i in range(case["size"]))
             host = "good" if case["redirect"] else "target"
@@ -113,6 +133,7 @@ def run_case(case: dict):
                 res = ("exc", type(e).__name__)
         finally:
             TOFUDatabase.verify = orig_verify
+            c12._State.active = False
         import asyncio
 
         await asyncio.sleep(30)
@@ -127,7 +148,11 @@ def run_case(case: dict):
         import shutil
 
         shutil.rmtree(d, ignore_errors=True)
-    should_fail = state in ("pinned-different", "unparsable", "unparsable-pinned")
+    should_fail = state in ("pinned-different", "unparsable", "unparsable-pinned", "changed-after-success")
+    if case.get("dbfault") and not should_fail:
+        # the matching pin could not be (fully) consulted/updated: the call may fail or succeed; nothing to require here
+        # beyond 'nothing before verification started', which was checked above
+        return ok(result=str(res), peer_got=len(got), snap=snaps, should_fail=False, dbfault=True)
     info = {"result": str(res), "peer_got": len(got), "snap": snaps, "should_fail": should_fail, "conns": nconn}
     if any(snaps):
         return viol("bytes-sent-before-verification", f"{snaps[0] if snaps[0] else max(snaps)} application bytes already transmitted when pin verification started: {got[:60]!r}", **info)
